@@ -224,6 +224,17 @@ def run(chk):
   thorough = chk.tier == 'thorough'
   chk.proofs(PROOF_FILES)
   cases = [GENS[i % len(GENS)](rng) for i in range(6000 if thorough else 600)]
+  # a systematic sweep of the CIRCULAR ConvTranspose alignment: both kernel layouts x kernel size x stride x dilation in one dimension, and anisotropic kernels in two
+  for tk in (False, True):
+    for k in (1, 2, 3):
+      for st in (1, 2, 3):
+        for dil in (1, 2):
+          kshape = [k] + ([1, 1] if tk else [1, 1])
+          cases.append({'layer': 'conv_transpose', 'x': ints(rng, [1, 4, 1]), 'kernel_size': [k], 'kernel': ints(rng, kshape, -2, 2), 'bias': ints(rng, [1]), 'use_bias': False,
+                        'strides': [st], 'padding': 'CIRCULAR', 'transpose_kernel': tk, 'kernel_dilation': [dil]})
+    for ksz, st in (([1, 2], [1, 1]), ([2, 3], [1, 2]), ([3, 2], [2, 1]), ([2, 1], [3, 2])):
+      cases.append({'layer': 'conv_transpose', 'x': ints(rng, [1, 3, 4, 1]), 'kernel_size': ksz, 'kernel': ints(rng, ksz + [1, 1], -2, 2), 'bias': ints(rng, [1]), 'use_bias': False,
+                    'strides': st, 'padding': 'CIRCULAR', 'transpose_kernel': tk, 'kernel_dilation': [1, 1]})
   W = 14
   results = common.run_impl_parallel('impl_c12.py', [{'cases': cases[i::W]} for i in range(W)], workers=W, timeout=3000)
   obs = [None] * len(cases)
